@@ -74,7 +74,7 @@ PROPS["C12"] = {
     "level": "proof",
     "prop_modules": ["Flounder.Props.C12", "Flounder.Props.C12Parse"],
     "budget": {"quick": [("c12", 5000)], "thorough": [("c12", 400000)], "search": [("c12", 800000)]},
-    "rule": "go commands through the REAL parser (hook verif_go_budget): the four clock pairs in random order, pairs missing, values from {0,1,4999,5000,5001,5025,random up to 2^40}; irregular stream with depth/movetime/infinite/junk/missing values/bad numbers; for every well-formed command (optionally with a depth cap or movestogo before or after the clocks; negative clock values included) a twin with the opponent's values replaced must give the same finite budget and both must fit the mover's clock; black-box: clock commands on the real binary (clock under the reserve, zero clock, depth after the clocks, opponent's values huge) must be answered before the mover's clock runs out; distinct = distinct command texts",
+    "rule": "go commands through the REAL parser (hook verif_go_budget): the four clock pairs in random order, pairs missing, values from {0,1,4999,5000,5001,5025,random up to 2^40}; irregular stream with depth/movetime/infinite/junk/missing values/bad numbers; for every well-formed command (optionally with a depth cap or movestogo before or after the clocks; negative clock values included) a twin with the opponent's values replaced must give the same finite budget and both must fit the mover's clock; black-box: clock commands on the real binary (clock under the reserve, zero clock, depth after the clocks, opponent's values huge) must be answered before the mover's clock runs out; incl. an increment-dominated clock on a volatile-score position and two-go sessions (an early-finishing timed go, then a small clock); distinct = distinct command texts",
     "trusted_base": [KERNEL, AXIOMS, TIE, EXTRACT, "u64 milliseconds modelled as Nat (no_u64_overflow covers values below 2^62 ms)", "str::split_whitespace / str::parse::<u64> modelled by digitsVal/parseU64 over List Char"],
     "assumptions": ["clock values below 2^62 ms", "hook verif_go_budget observes the parameters handle_go_command hands to find_best_move"],
     "finding_key": lambda sf: None,
@@ -106,7 +106,7 @@ PROPS["C02"] = {
 PROPS["C17"] = {
     "level": "other",
     "budget": {"quick": [("c17", 8000)], "thorough": [("c17", 300000)], "search": [("c17", 600000), ("c10x", 20000)]},
-    "rule": CHESS_RULE + "; per board: generate_quiescence_moves (sorted) vs model vs {legal m | captures or promotes or gives check by the rules}, and the move list search_until_quiet itself selects (hook inside the search) vs model vs (in check ? all legal : tactical)",
+    "rule": CHESS_RULE + "; per board: generate_quiescence_moves (sorted) vs model vs {legal m | captures or promotes or gives check by the rules}, and the move list search_until_quiet itself selects (hook inside the search) vs model vs (in check ? all legal : tactical); now and then preceded on the SAME searcher by a burst of cut-off searches or by a completed shallow search of that very position",
     "explanation": "Machine-checked: the selection is exactly the filter of the generated moves by capture|promotion|check, all generated moves when in check (Props/C17.lean). The identification of the engine's is_check with 'gives check under the rules' (FullStatement) depends on C01/C02 and is decided per position by the correspondence until those close.",
     "trusted_base": [KERNEL, AXIOMS, TIE, "hook verif_quiescence_move_set records the list chosen inside search_until_quiet"],
     "assumptions": ["FullStatement is open pending C01/C02"],
@@ -155,7 +155,7 @@ PROPS["C06"] = {
     "prop_modules": ["Flounder.Props.C06", "Flounder.Props.C06Full", "Flounder.Props.C06Guard"],
     "custom": [blackbox.step_after_timed],
     "budget": {"quick": [("c06", 12)], "thorough": [("c06", 250)], "search": [("c06", 500)]},
-    "rule": "for small-tree positions: a deadline at EVERY node count 1..total (exhaustive when the completed search has <= 120 nodes, sampled otherwise), expressed both as node budget and as poll index; 1-3 interrupted searches, then every record left in the table for the root and its successors audited against minimax (s.ttclaim), a later completed search judged against minimax (only when no deeper record was reused), and the repetition stack length compared (rep=); black-box with REAL clock budgets: go movetime 0/1/3 or a clock under the reserve, then go depth d in the same process must complete all d iterations like a fresh process",
+    "rule": "for small-tree positions: a deadline at EVERY node count 1..total (exhaustive when the completed search has <= 120 nodes, sampled otherwise), expressed both as node budget and as poll index; 1-3 interrupted searches, then every record left in the table for the root and its successors audited against minimax (s.ttclaim), a later completed search judged against minimax (only when no deeper record was reused), and the repetition stack length compared (rep=); one case in three on the ENGINE's own searcher with a game history recorded by a position command: fingerprint of the history record before/after every cut-off search (eng.repsame), later search tied and judged against minimax-with-draws; black-box with REAL clock budgets: go movetime 0/1/3 or a clock under the reserve, then go depth d in the same process must complete all d iterations like a fresh process",
     "trusted_base": SEARCH_TB + [HASHINJ],
     "assumptions": [HASHINJ, "existence of the reference values is a hypothesis of the generic theorems; for chess it is discharged on every good board (Props/QSpecChess.lean: chess_V_total)", "the wall clock is abstracted to 'some poll is the first to return true' (every monotone clock is such an oracle)"],
     "finding_key": lambda sf: None,
@@ -166,7 +166,7 @@ PROPS["C07"] = {
     "prop_modules": ["Flounder.Props.C07", "Flounder.Props.C07Dense"],
     "budget": {"quick": [("c07", 12)], "thorough": [("c07", 250)], "search": [("c07", 500)]},
     "custom": [blackbox.step_latency],
-    "rule": "as C06 (deadline at every node count / poll index): the hook counter 'nodes entered after should_stop() first returned true' must be 0 (theorem no_new_work_after_stop) and poll counts must match the model; black-box: go movetime T on 5 positions incl. quiescence-explosive ones (16 pawns on the 7th ranks, 8 queens) must answer within T + 400 ms (observed, not proved)",
+    "rule": "as C06 (deadline at every node count / poll index): the hook counter 'nodes entered after should_stop() first returned true' must be 0 (theorem no_new_work_after_stop) and poll counts must match the model; black-box: go movetime T on 5 positions incl. quiescence-explosive ones (16 pawns on the 7th ranks, 8 queens) must answer within T + 400 ms (observed, not proved); go forms with a depth cap or standard parameters this engine does not implement (nodes, mate) next to movetime; volatile-score positions (score collapses between iterations), also after a clock-mode go on another position in the same process",
     "trusted_base": SEARCH_TB,
     "assumptions": ["the wall-clock cost of the at most (depth + quiescence depth) unwinding steps and of one in-flight node is observed black-box, not proved"],
     "finding_key": lambda sf: None,
@@ -227,7 +227,7 @@ PROPS["C16"] = {
     "custom": [lambda tier, seed, ctx: blackbox.step_transcripts(tier, seed, ctx, flavours=("handshake", "noquit", "mixed"),
                                                                 encodings=[("lf", "nofinal", "crlf"), ("lf", "badutf8", "nofinal"), ("lf", "crlf", "badutf8")]),
                blackbox.step_eof_during_search],
-    "rule": "black-box on the real binary: generated scripts interleaving uci / isready / ucinewgame / unknown words / blank and white-space lines / mixed case / position / go depth n, ending with or without quit (quit with trailing tokens; lines after quit must be ignored), lines with non-ASCII text (byte-order mark, accents, emoji, NUL), each script fed three times with different stdin encodings (LF, CRLF, last line unterminated, lines that are not valid UTF-8 inserted — those must be skipped silently): stdout must equal the Lean model's transcript, exit status must be 0 both on quit and at end of input (a hang is a timeout = violation)",
+    "rule": "black-box on the real binary: generated scripts interleaving uci / isready / ucinewgame / unknown words / blank and white-space lines / mixed case / position / go depth n, ending with or without quit (quit with trailing tokens; lines after quit must be ignored), lines with non-ASCII text (byte-order mark, accents, emoji, NUL), each script fed three times with different stdin encodings (LF, CRLF, last line unterminated, lines that are not valid UTF-8 inserted — those must be skipped silently) , very long unknown lines (256 B .. 64 KiB) with a command word starting exactly at a buffer-size boundary, move lists of 850-1750 plies in one line, the same game sent again (same or one move longer) right after ucinewgame: stdout must equal the Lean model's transcript, exit status must be 0 both on quit and at end of input (a hang is a timeout = violation)",
     "trusted_base": [KERNEL, AXIOMS, "Engine.uciLoop models stdin as a finite list of lines followed by end of input, process::exit(0)/return from main as Outcome.exited 0", "process-level facts (exit status, no hang) are observed black-box"],
     "assumptions": ["read_line returns Ok(0) at end of input (documented behaviour of std)"],
     "finding_key": lambda sf: None,
